@@ -12,7 +12,7 @@ def minimise(job, budget_s=150, max_evals=400):
     prop = job["property"]
     cfg = job["cfg"]
     twin = job.get("twin")
-    key = tuple(tuple(x) if isinstance(x, list) else x for x in job["key"])
+    key = job["key"]
     t_end = time.time() + budget_s
     evals = [0]
 
@@ -24,7 +24,7 @@ def minimise(job, budget_s=150, max_evals=400):
             viols = core.run_recipes_for_prop(prop, cfg, copy.deepcopy(steps), twin)
         except Exception:
             return False
-        return any(core.sig_key(v) == key for v in viols)
+        return any(core.key_eq(core.sig_key(v), key) for v in viols)
 
     steps = list(job["steps"])
     if not fails(steps):
@@ -62,9 +62,9 @@ def minimise(job, budget_s=150, max_evals=400):
     cfg2["ops"] = {k: v for k, v in cfg.get("ops", {}).items() if k in used}
     out = {**job, "cfg": cfg2, "steps": steps, "minimised": True, "evals": evals[0]}
     viols = core.run_recipes_for_prop(prop, cfg2, copy.deepcopy(steps), twin)
-    hit = [v for v in viols if core.sig_key(v) == key]
+    hit = [v for v in viols if core.key_eq(core.sig_key(v), key)]
     if hit:
-        out["expect"] = {"key": list(key), "detail": hit[0]["detail"], "cell": hit[0]["cell"], "sid": hit[0]["sid"]}
+        out["expect"] = {"key": key, "detail": hit[0]["detail"], "cell": hit[0]["cell"], "sid": hit[0]["sid"]}
     else:
         out["cfg"] = cfg
     return out
